@@ -4,6 +4,47 @@ import numpy as np
 from tempest.student import fit_mvstud
 
 
+def _fit_mode(u_resampled: np.ndarray, dof_fallback: float):
+    """
+    Fit one proposal mode (mean, covariance, dof) to resampled particles.
+
+    Clusters with too few distinct points (after trimming and resampling a
+    cluster can collapse to one or two points) make the Student-t fit singular:
+    it raises, or returns a non-finite / non-positive-definite scale matrix.
+    Such a mode falls back to Gaussian moments with a small diagonal floor (the
+    particles live in the unit hypercube), so that it is always a valid
+    proposal.
+    """
+    n_dim = u_resampled.shape[1]
+    try:
+        mean, covariance, dof = fit_mvstud(u_resampled)
+        covariance = np.atleast_2d(covariance)
+        valid = (
+            np.all(np.isfinite(mean))
+            and np.all(np.isfinite(covariance))
+            and np.isfinite(np.linalg.cond(covariance))
+            and np.all(np.linalg.eigvalsh(0.5 * (covariance + covariance.T)) > 0)
+            and not np.isnan(dof)
+            and dof > 0
+        )
+        if valid:
+            np.linalg.cholesky(covariance)
+    except (np.linalg.LinAlgError, ValueError, FloatingPointError):
+        valid = False
+
+    if not valid:
+        mean = np.mean(u_resampled, axis=0)
+        covariance = np.atleast_2d(np.cov(u_resampled, rowvar=False, bias=True))
+        covariance = 0.5 * (covariance + covariance.T) + 1e-6 * np.eye(n_dim)
+        dof = dof_fallback
+
+    # Apply fallback for non-finite DOF
+    if ~np.isfinite(dof):
+        dof = dof_fallback
+
+    return mean, covariance, dof
+
+
 class ModeStatistics:
     """
     Encapsulates mode statistics for t-preconditioned Crank-Nicolson MCMC.
@@ -185,12 +226,8 @@ class ModeStatistics:
             )
             u_resampled = u_cluster[idx_resample]
 
-            # Fit multivariate Student-t distribution
-            mean, covariance, dof = fit_mvstud(u_resampled)
-
-            # Apply fallback for non-finite DOF
-            if ~np.isfinite(dof):
-                dof = dof_fallback
+            # Fit multivariate Student-t distribution (robust to degenerate clusters)
+            mean, covariance, dof = _fit_mode(u_resampled, dof_fallback)
 
             means.append(mean)
             covariances.append(covariance)
@@ -258,12 +295,8 @@ class ModeStatistics:
         )
         u_resampled = u[idx_resample]
 
-        # Fit multivariate Student-t distribution
-        mean, covariance, dof = fit_mvstud(u_resampled)
-
-        # Apply fallback for non-finite DOF
-        if ~np.isfinite(dof):
-            dof = dof_fallback
+        # Fit multivariate Student-t distribution (robust to degenerate pools)
+        mean, covariance, dof = _fit_mode(u_resampled, dof_fallback)
 
         return cls(
             means=mean.reshape(1, -1),
